@@ -1,38 +1,40 @@
+import BearVerif.Core.Gen
 /- GENERATED on every run by harness/extract/gen.py from
    beartype/_check/cls/call/calldatadecorfunc.py (deinit, reinit), beartype/_util/func/utilfunctest.py and the
    snippet constants of beartype/_data/check/code/{func/datacodefuncwrap,pep/datacodepep342,pep/datacodepep525}.py.
    Do not edit. -/
 namespace BearVerif.Extracted
+open BearVerif.Gen
 
 /-- `deinit`: defaults of the four wrapper-code attributes, in program order -/
 def genReinitDefaults : List (String × String) := [("func_wrapper_code_return_checked", "CODE_NORMAL_RETURN_CHECKED"), ("func_wrapper_code_return_unchecked", "CODE_NORMAL_RETURN_UNCHECKED_SYNC"), ("func_wrapper_code_call_prefix", ""), ("func_wrapper_code_signature_prefix", "")]
 
-/-- `reinit`, `if func_wrappee_codeobj:` block, flattened: (guards, attribute, value) in program order -/
-def genReinitProg : List (List (String × Bool) × String × String) := [
-  ([("is_func_coro", true)], "func_wrapper_code_signature_prefix", "async "),
-  ([("is_func_coro", true)], "func_wrapper_code_call_prefix", "await "),
-  ([("is_func_coro", true)], "func_wrapper_code_return_unchecked", "CODE_NORMAL_RETURN_UNCHECKED_ASYNC"),
-  ([("is_func_sync_generator", true)], "func_wrapper_code_return_checked", "CODE_PEP342_RETURN_CHECKED"),
-  ([("is_func_sync_generator", true)], "func_wrapper_code_return_unchecked", "CODE_PEP342_RETURN_UNCHECKED"),
-  ([("is_func_sync_generator", false), ("is_func_async_generator", true)], "func_wrapper_code_signature_prefix", "async "),
-  ([("is_func_sync_generator", false), ("is_func_async_generator", true)], "func_wrapper_code_return_checked", "CODE_PEP525_RETURN_CHECKED"),
-  ([("is_func_sync_generator", false), ("is_func_async_generator", true)], "func_wrapper_code_return_unchecked", "CODE_PEP525_RETURN_UNCHECKED")
+/-- `reinit`, `if func_wrappee_codeobj:` block, flattened: guards, attribute, value — in program order -/
+def genReinitProg : List GAssign := [
+  ⟨[("is_func_coro", true)], "func_wrapper_code_signature_prefix", "async "⟩,
+  ⟨[("is_func_coro", true)], "func_wrapper_code_call_prefix", "await "⟩,
+  ⟨[("is_func_coro", true)], "func_wrapper_code_return_unchecked", "CODE_NORMAL_RETURN_UNCHECKED_ASYNC"⟩,
+  ⟨[("is_func_sync_generator", true)], "func_wrapper_code_return_checked", "CODE_PEP342_RETURN_CHECKED"⟩,
+  ⟨[("is_func_sync_generator", true)], "func_wrapper_code_return_unchecked", "CODE_PEP342_RETURN_UNCHECKED"⟩,
+  ⟨[("is_func_sync_generator", false), ("is_func_async_generator", true)], "func_wrapper_code_signature_prefix", "async "⟩,
+  ⟨[("is_func_sync_generator", false), ("is_func_async_generator", true)], "func_wrapper_code_return_checked", "CODE_PEP525_RETURN_CHECKED"⟩,
+  ⟨[("is_func_sync_generator", false), ("is_func_async_generator", true)], "func_wrapper_code_return_unchecked", "CODE_PEP525_RETURN_UNCHECKED"⟩
 ]
 
 /-- which CO_* flags each tester reads -/
 def genFlagTests : List (String × String) := [("is_func_async_generator", "CO_ASYNC_GENERATOR"), ("is_func_coro", "CO_COROUTINE"), ("is_func_sync_generator", "CO_GENERATOR")]
 
-/-- per snippet: (has yield, has yield from, has await, awaits the decorated callable, calls it); none = unparsable -/
-def genSnippetFeats : List (String × Option (Bool × Bool × Bool × Bool × Bool)) := [
-  ("CODE_CALL_CHECKED[]", some (false, false, false, false, true)),
-  ("CODE_CALL_CHECKED[await ]", some (false, false, true, true, true)),
-  ("CODE_NORMAL_RETURN_CHECKED", some (false, false, false, false, false)),
-  ("CODE_NORMAL_RETURN_UNCHECKED_ASYNC", some (false, false, true, true, true)),
-  ("CODE_NORMAL_RETURN_UNCHECKED_SYNC", some (false, false, false, false, true)),
-  ("CODE_PEP342_RETURN_CHECKED", some (false, true, false, false, false)),
-  ("CODE_PEP342_RETURN_UNCHECKED", some (false, true, false, false, true)),
-  ("CODE_PEP525_RETURN_CHECKED", some (true, false, true, false, false)),
-  ("CODE_PEP525_RETURN_UNCHECKED", some (true, false, true, false, true))
+/-- per parsable snippet: has yield, has yield from, has await, awaits the decorated callable, calls it -/
+def genSnippetFeats : List (String × Feat) := [
+  ("CODE_CALL_CHECKED[]", ⟨false, false, false, false, true⟩),
+  ("CODE_CALL_CHECKED[await ]", ⟨false, false, true, true, true⟩),
+  ("CODE_NORMAL_RETURN_CHECKED", ⟨false, false, false, false, false⟩),
+  ("CODE_NORMAL_RETURN_UNCHECKED_ASYNC", ⟨false, false, true, true, true⟩),
+  ("CODE_NORMAL_RETURN_UNCHECKED_SYNC", ⟨false, false, false, false, true⟩),
+  ("CODE_PEP342_RETURN_CHECKED", ⟨false, true, false, false, false⟩),
+  ("CODE_PEP342_RETURN_UNCHECKED", ⟨false, true, false, false, true⟩),
+  ("CODE_PEP525_RETURN_CHECKED", ⟨true, false, true, false, false⟩),
+  ("CODE_PEP525_RETURN_UNCHECKED", ⟨true, false, true, false, true⟩)
 ]
 
 /-- per snippet: comment-free structural dump (CPython `ast.dump`) of its statements -/
